@@ -15,6 +15,9 @@ for pid,x,st in rows:
     except Exception: pass
     seedtab.append(f"| {pid}-{x} | {what} | {st} | `{sig}` |")
 nkept=sum(1 for r in rows if r[2].startswith('detected'))
+nother=sum(1 for r in rows if r[2].startswith('detected by'))
+nundet=sum(1 for r in rows if r[2].startswith('NOT DETECTED'))
+noutside=sum(1 for r in rows if r[2].startswith('outside'))
 nmissed=sum(1 for r in rows if 'strengthened' in r[2])
 ndropped=sum(1 for r in rows if r[2].startswith('dropped'))
 benign=[l.strip() for l in open('/verif/benign/RESULTS.txt') if l.strip()]
@@ -156,22 +159,30 @@ is ignored by the parser, `p:*` matches nothing.
 
 ### 11.6 Seeded property-breaking changes (detection matrix)
 
-Seven rounds of fresh sub-agents (2 x 17 changes, then 17, then 17, then 9 that
+Eight rounds of fresh sub-agents (2 x 17 changes, then 17, then 17, then 9 that
 were asked for changes which only manifest on LARGE instances: deep or wide
 documents, long histories, three goroutines, larger capacities; then 17 that
 were asked for TWO cooperating edits, each harmless alone; then rounds 6 and 7,
 2 x 9 and 2 x 8 changes, each sub-agent pointed at named parts of the source —
 scanner, conversion helpers, clone methods, dispatch tables — and told which
-mechanisms earlier seeds had already used) were given
+mechanisms earlier seeds had already used; round 8, 2 x 17, was told that a
+harness catches everything listed so far and asked for what such a harness is
+LEAST likely to exercise: unusual spellings, node kinds, thresholds, orders of
+calls, interactions of two features) were given
 only a property's text (rounds 2 and 3 also a one-line description of the
 earlier seeds, to force different mechanisms) and a scratch worktree of /repo,
 and asked for changes that break the property while compiling and passing the
 existing suite, with a demonstration test. Each was confirmed with
 `tools/seed_eval.sh` (applies to HEAD, builds, suite passes, demo fails with /
 passes without the change) and then applied to /repo and run against the
-property's **quick** check. {nkept} changes are kept under
-`/verif/seeded/<ID>-<X>/` (patch.diff, demo_test.go.txt, meta.json); all are
-reported (exit 1, VIOLATION) by the quick check of their property. {nmissed} of
+property's **quick** check. {nkept+nundet+noutside} changes are kept under
+`/verif/seeded/<ID>-<X>/` (patch.diff, demo_test.go.txt, meta.json);
+{nkept-nother} are reported (exit 1, VIOLATION) by the quick check of the property
+they were written for, {nother} by the check of the property whose clause they
+really break (a `MoveNext` after the first `false` is C12's clause, a fatal
+error under concurrent Compile is C05's), {nundet} are **not detected** because
+they need an instance beyond every explored bound (listed in §8a below) and
+{noutside} changes behaviour that no listed property fixes. {nmissed} of
 them were **missed at first** and led to the strengthening listed below;
 {ndropped} first-round changes were dropped because the repairs of §11.3 made them
 harmless or inapplicable.
@@ -232,6 +243,42 @@ with the same local name under different prefixes (C03 Pos5); a parent with
 trees whose operands are operator trees, as concurrent scenarios (C05).
 While adding multi-predicate parenthesised hosts to C02 a further genuine
 defect surfaced (`(P)[A][B]` lost `[B]`), repaired in §11.3.
+Round 8 ("what a harness is least likely to exercise": 34 changes, 27 missed
+at first) showed where the alphabets were too tidy and led to: element and
+attribute names that differ only in letter case or extend each other (C01);
+names containing `-`, `.` and digits and operators glued to numbers — `6div 3`,
+`a-1 -1` (C08, C10); whitespace-only text siblings (C03) and values (C07);
+doubles a few ulps apart, numbers left of a node-set in relational tests,
+number- and string-valued operands of and/or inside predicates (C07, C02);
+prefixed name tests directly before `and`/`or`/`div`/`mod`, and every
+namespace configuration repeated with the prefix spelled `xml` (C14);
+`reverse()` as a union operand, two 140-level twin branches (C11); the written-out
+`descendant-or-self::node()/x` (C12); the sequence form as P of the identities
+(C13); a *size* space — chains of depth 24/40, 70 siblings, 1..257 capture
+groups — for C15; `$n` references over patterns whose group count changes from
+candidate to candidate (C16); substring arguments beyond 2^32 / 2^63 and the value
+of a string function right after an evaluation that aborted half-way (C09);
+histories containing such aborting evaluations, with the process-global
+builder pool brought to rest before every history so that a finding is
+attributable to its own history, and a second NodeNavigator implementation
+inside one history (C04); a namespace map shared by concurrent CompileWithNS
+calls (C05); 4*10^6 nesting levels in the quick tier (C06); case variants of
+function names and blanks inside qualified names (C17, already caught).
+Two side remarks of a round-8 sub-agent were **genuine defects of the pinned
+tree** that the strengthened C02/C07 checks then reproduced (a merged step left
+the cursor moved; a filtered descendant step skipped nested matches); both are
+repaired (§11.3).
+
+**§8a — seeded changes that stay undetected (outside every explored bound).**
+C03-K caps the sibling walk of position()/last() at 65 536 (needs a parent with
+more than 65 536 children; one evaluation is then quadratic, ~4*10^9 navigator
+calls); C13-L narrows the node-identity hash to 32 bits (first collisions
+between ~10^5 nodes). Both are size effects far beyond a small scope; the
+checks' largest documents have 300 siblings / 283 nodes. They are kept under
+`seeded/` as documented misses. C12-K (a positional predicate on a mid-path
+`.` step) changes behaviour that no listed property fixes (C03 speaks about
+child-axis steps, C12 about predicate-free flat paths) and is kept as
+"outside".
 Three pre-existing engine defects were also reported by a sub-agent as a side
 remark (stale state in nested descendant steps and merge queries inside
 predicates; cursor left moved between the operands of a comparison); the
